@@ -57,7 +57,7 @@ func (c Config) compileNode(n parser.ASTNode) (Node, parser.Error) {
 		if td, ok := c.FindTagDefinition(n.Name); ok {
 			f, err := td(n.Args)
 			if err != nil {
-				return nil, parser.Errorf(n, "%s", err)
+				return nil, parser.WrapError(err, n)
 			}
 			return &TagNode{n.Token, f}, nil
 		}
